@@ -154,12 +154,15 @@ type PATSpec struct {
 	Version  int        `json:"version"`
 	Entries  []PATEntry `json:"entries"`
 	Reserved int        `json:"reserved"` // value of the 3 reserved bits in every entry (receivers must ignore them)
+	// HdrFlip: bits of the version byte to flip (0x01 clears current_next_indicator, 0xC0 the
+	// two reserved bits): header fields that take no part in what the table says
+	HdrFlip int `json:"hdr_flip,omitempty"`
 }
 
 func (p PATSpec) Section() []byte {
 	var body []byte
 	body = append(body, byte(p.TSID>>8), byte(p.TSID))
-	body = append(body, 0xC0|byte(p.Version&0x1f)<<1|1)
+	body = append(body, (0xC0|byte(p.Version&0x1f)<<1|1)^byte(p.HdrFlip&0xC1))
 	body = append(body, 0x00, 0x00)
 	for _, e := range p.Entries {
 		body = append(body, byte(e.Program>>8), byte(e.Program), byte(p.Reserved&7)<<5|byte(e.PID>>8)&0x1f, byte(e.PID))
